@@ -122,6 +122,46 @@ class DefaultActivation2(DefaultActivation):
         return 'DefaultActivation2'
 
 
+class DefaultActivation3(DefaultActivation):
+    """Switched ON explicitly through PLUGIN_DEFAULTACTIVATION3 (text, bool or int)."""
+
+    def __init__(self, config=None):
+        DefaultActivation.__init__(self, config)
+        self._rname = 'DefaultActivation3'
+        self.attrs = {'deco_default3': 'd3'}
+
+    @property
+    def name(self):
+        return 'DefaultActivation3'
+
+    def order(self):
+        return _cfg(self).get('order', 0)
+
+
+class DefaultActivation4(DefaultActivation):
+    """Switched off through PLUGIN_DEFAULTACTIVATION4 given as bool False / int 0."""
+
+    @property
+    def name(self):
+        return 'DefaultActivation4'
+
+
+class OrderRaises(DefaultActivation):
+    """A plugin whose declared order cannot be obtained."""
+
+    def __init__(self, config=None):
+        DefaultActivation.__init__(self, config)
+        self._rname = 'OrderRaises'
+        self.attrs = {'deco_order_raises': 'o'}
+
+    @property
+    def name(self):
+        return 'OrderRaises'
+
+    def order(self):
+        raise RuntimeError('no order today')
+
+
 # ---------------------------------------------------------------------------------------
 # auth providers (config SERVICE_AUTH_PROVIDER takes a dotted name)
 from deep.api.auth import AuthProvider  # noqa: E402
